@@ -26,7 +26,7 @@ CASES = {"quick": 640, "thorough": 20000}
 BUDGET = {"quick": 60, "thorough": 1500}
 FLOORS = {"quick": {"nontrivial": 250, "max_skip_frac": 0.35,
                     "tags": {"batch_read": 60, "recycle_bus_pq": 150, "recycle_gen": 60, "recycle_trafo": 60, "no_recycle": 25,
-                             "ctrl:line": 25, "ctrl:trafo.tap_pos": 25, "ctrl:gen.vm_pu": 15, "ctrl:ext_grid.vm_pu": 15,
+                             "recycle_gen_only": 12, "ctrl:line": 25, "ctrl:trafo.tap_pos": 25, "ctrl:gen.vm_pu": 15, "ctrl:ext_grid.vm_pu": 15,
                              "log:eval": 40, "log:index_subset": 40, "log:non_branch_table": 60, "ts_returned": 300},
                     "extras": {"cells_compared": 100000, "steps_compared": 1500}},
           "thorough": {"nontrivial": 6000, "max_skip_frac": 0.35,
@@ -456,6 +456,8 @@ def run_case(seed, tier, case_no):
             tags.add("recycle_" + key)
     if not all_rec:
         tags.add("no_recycle")
+    elif tags & {"recycle_gen"} and not tags & {"recycle_bus_pq", "recycle_trafo"}:
+        tags.add("recycle_gen_only")
     eligible = batch_eligible(ctrls, ctor, calls, kw)
     if eligible:
         tags.add("batch_read")
